@@ -1,0 +1,9 @@
+//go:build verif
+
+package p256
+
+// VerifN and VerifHalfN expose the constants swap and checkLowS compare against (the order of the P-256 base
+// point and its half), so that the verification model's constant is compared with them on every run.
+func VerifN() []byte { return nMod.Nat().Bytes(nMod) }
+
+func VerifHalfN() []byte { return halfN.Bytes() }
